@@ -96,7 +96,12 @@ async fn streaming_process(
                         writer.flush()?;
                         let mut reader = JournalReader::open(journal_path)?;
                         for event in &mut reader {
-                            tx.send(event?)?;
+                            if tx.send(event?).is_err() {
+                                /* The client that asked for the history is gone.
+                                   It is not an error of the journal, stop just the replay */
+                                log::debug!("Journal replay interrupted, the receiver is closed");
+                                break;
+                            }
                         }
                     },
                     Some(EventStreamMessage::PruneJournal { live_jobs, live_workers, callback })  => {
